@@ -14,7 +14,7 @@ func init() {
 	register(&PropDef{
 		ID:          "C11",
 		Level:       "other",
-		Explanation: "Shutdown as ordering/pairing rules on the CFG: GATE — the shutting-down flag is set and every wait list is purged (each listed job marked canceled, list deleted) in one write-lock region before any wait, and the accept function tests the flag before any effect; FINAL SAVE — a deferred function registered at entry waits for the runner's WaitGroup and then saves, in that order, so it runs on every return; PAIRING — every go statement of the runner package whose goroutine can mutate job state or call into a scheduler is WaitGroup-paired (Add dominates the go, Done on every path), the persist loop is the one listed exception (it only calls the save, which registers itself in the WaitGroup); FORCED/GRACEFUL — on the context-done branch every job id of the id index is passed to the internal cancel under the write lock and no cancel is reachable on any other path; PERSIST COVERAGE — in every function that takes the write lock, each store to a persisted field and each call of a callee that leaves persisted state dirty is followed on every path by a persist request, a save, or is dominated by a deferred one; the persist loop receives on the request channel and calls the save; SIGNALS — the graceful context is built from {SIGINT, SIGTERM}, the forced one from {SIGTERM}, shutdown receives the forced one after the graceful one is done, and the HTTP handler answers 503 while shutting down.",
+		Explanation: "Shutdown as ordering/pairing rules on the CFG: GATE — the shutting-down flag is set and every wait list is purged (each listed job marked canceled, list deleted) in one write-lock region before any wait, and the accept function tests the flag before any effect; FINAL SAVE — a deferred function registered at entry waits for the runner's WaitGroup and then saves, in that order, so it runs on every return; PAIRING — every go statement of the runner package whose goroutine can mutate job state or call into a scheduler is WaitGroup-paired (Add dominates the go, Done on every path), the persist loop is the one listed exception (it only calls the save, which registers itself in the WaitGroup); FORCED/GRACEFUL — on the context-done branch every job id of the id index is passed to the internal cancel under the write lock and no cancel is reachable on any other path; PERSIST COVERAGE — in every function that takes the write lock, each store to a persisted field and each call of a callee that leaves persisted state dirty is followed on every path by a persist request, a save, or is dominated by a deferred one; the persist loop receives on the request channel and calls the save; SIGNALS — the graceful context is built from {SIGINT, SIGTERM}, the forced one from {SIGTERM}, shutdown receives the forced one after the graceful one is done, and the HTTP handler answers 503 while shutting down. SAVE UNCONDITIONAL — no return of the save is reachable without the store's Save (except for a runner without store); if there is a short cut it must read state the persist request writes, and then only the request itself (not a later save) counts as coverage, Shutdown's purge included. STAGES PAIRED — Scheduler.Schedule waits for every stage goroutine before every return, the cancel edge included (no task executes when shutdown returns).",
 		Trusted:     []string{"os/signal delivers the configured signals", "C13", "sync.WaitGroup semantics"},
 		NotDecided:  []string{"that running jobs finish (premise)", "the 3 s persist bound", "what the OS delivers"},
 		Check:       checkC11,
